@@ -184,8 +184,26 @@ func (m *Model) mustRun(x int, leaves []u.PLeaf, skip DecoSet, done func(string)
 			}
 			continue
 		}
-		// groups: only undecorated, non-soft groups have a definite must-set
-		if len(m.DecoChain(x, l.Key)) > 0 || l.Soft {
+		// groups: soft groups have no definite must-set
+		if l.Soft {
+			continue
+		}
+		// every decorator of the group on the way to the root that is not
+		// being built right now runs (root first), each with its own closure
+		// — typically the group itself, seen from the decorator's scope; the
+		// group's feeders are then demanded there, not here
+		active := false
+		for _, d := range m.DecoChain(x, l.Key) {
+			if skip[d] {
+				continue
+			}
+			active = true
+			out[d.Inst] = true
+			if !done(d.Inst) {
+				m.mustRun(d.Scope, d.P, skip.with(d), done, out, seen)
+			}
+		}
+		if active {
 			continue
 		}
 		for _, c := range m.Feed(x, l.Key) {
